@@ -61,7 +61,7 @@ def run(tier, seed):
                 pairs.append((a, b))
     pairs.append(("orders", "orders"))
     pairs.append(("map-object-keys", "map-object-keys"))
-    cs = [{"id": "il|%s|%s" % (a, b), "a": mk(PROGRAMS[a]), "b": mk(PROGRAMS[b]), "switches": 2 if tier == "quick" else 3, "stride": 7 if tier == "quick" else 9} for a, b in pairs]
+    cs = [{"id": "il|%s|%s" % (a, b), "a": mk(PROGRAMS[a]), "b": mk(PROGRAMS[b]), "switches": 2 if tier == "quick" else 3, "stride": 7 if tier == "quick" else 9, "max_schedules": 20000 if tier == "quick" else 60000} for a, b in pairs]
     res = core.run_batch(cs, sub_args=("iso", "interleave"), hang_s=900, as_gb=2)
     f = fam.setdefault("interleavings", {"pairs": 0, "schedules": 0, "bad": 0})
     for c in cs:
@@ -71,6 +71,9 @@ def run(tier, seed):
             chk.fail("proc|" + c["id"], str(o.get("status")), "%s: worker %s" % (c["id"], o.get("status")), {"kind": "interleave", "case": c}, cluster="process-level failure")
             continue
         f["schedules"] += o["schedules"]
+        f["widest_stride_used"] = max(f.get("widest_stride_used", 0), o.get("stride_used", 0))
+        if o.get("stride_used", c["stride"]) != c["stride"]:
+            f["pairs_with_widened_stride"] = f.get("pairs_with_widened_stride", 0) + 1
         states += o["schedules"]
         trans += o["schedules"] * (o["steps_a"] + o["steps_b"])
         if o["nbad"]:
@@ -135,7 +138,7 @@ def run(tier, seed):
             chk.fail("layout|" + n, str(sorted(len(v) for v in ds.values())), "program %s: trace digest differs between processes / heap displacements: %s" % (n, {d: v[:3] for d, v in ds.items()}), {"kind": "layout", "program": n}, cluster="address-layout dependent: " + n)
     chk.coverage = {"states": states, "transitions": trans, "traces_validated_against_impl": states, "families": fam, "programs": len(names),
                     "samples": [{"pair": list(pairs[0]), "schedule": ["a:3", "b:5", "a:end", "b:end"]}, {"lifetime_history": ["Create(0)", "Abandon(0, 1)", "Create(1)", "Drop(0)"]}],
-                    "rule": "interleavings: both start orders, every pair of switch points on a stride of 7 (thorough: 3 switches, stride 9) for the selected program pairs; lifetimes: all histories of depth <= 3 (4) over create/run/abandon/drop on 3 instance slots before a probe; threads: turnstile hand-over after 1 and 5 steps; layouts: heap displaced by k*16 bytes + a k*4096-byte block for k in 0..63 (quick: every 4th), ASLR off, environment padding. states = executions, transitions = host steps replayed"}
+                    "rule": "interleavings: both start orders, every pair of switch points on a stride of 7 (thorough: 3 switches, stride 9; widened per pair so that no pair exceeds 20 000 (60 000) schedules - see widest_stride_used) for the selected program pairs; lifetimes: all histories of depth <= 3 (4) over create/run/abandon/drop on 3 instance slots before a probe; threads: turnstile hand-over after 1 and 5 steps; layouts: heap displaced by k*16 bytes + a k*4096-byte block for k in 0..63 (quick: every 4th), ASLR off, environment padding. states = executions, transitions = host steps replayed"}
     chk.assumptions = ["address-layout nondeterminism is enumerated over a stated finite set of layouts only", "time and random providers are fixed by the harness"]
     return chk.finish(exhaustive=True)
 
